@@ -727,6 +727,14 @@ func runInterleave(r *vs.Rand, i int, seed uint64, out *vs.Out) {
 	sc := buildScenario(r, cfg)
 	defer sc.w.close()
 	w := sc.w
+	// sometimes the controller has already settled this parent: the cached parent then carries the very status the hook
+	// returns, and an outside edit of the live status is only noticed by the live read of the status update
+	if r.Chance(30) {
+		w.fillCaches()
+		first := sc.syncOnce(i, seed)
+		first["scenario"] = "interleave"
+		out.Line(first)
+	}
 	// candidates: children named p1-*
 	type ref struct{ c childSpec; ns, name string }
 	var kids []ref
@@ -741,7 +749,11 @@ func runInterleave(r *vs.Rand, i int, seed uint64, out *vs.Out) {
 			return
 		}
 		k := kids[r.Intn(len(kids))]
-		switch r.Intn(9) {
+		switch r.Intn(10) {
+		case 9: // somebody else overwrites the parent's status
+			s.Mutate(parentGroup, cfg.parentResource(), nsOfKey(sc.key), "p1", func(o map[string]interface{}) {
+				o["status"] = map[string]interface{}{"replicas": int64(99), "observedGeneration": int64(1)}
+			})
 		case 8: // the parent's spec is edited (generation moves on): the cached parent is one generation behind
 			s.Mutate(parentGroup, cfg.parentResource(), nsOfKey(sc.key), "p1", func(o map[string]interface{}) {
 				md := o["metadata"].(map[string]interface{})
